@@ -12,10 +12,13 @@ import (
 	"github.com/gotd/td/bin"
 	"github.com/gotd/td/crypto"
 	"github.com/gotd/td/internal/verif/kit"
+	"github.com/gotd/td/internal/verif/lib/refcrypto"
+	"github.com/gotd/td/internal/verif/lib/refsession"
 	"github.com/gotd/td/internal/verif/lib/sx"
 	"github.com/gotd/td/internal/verif/shim/vctx"
 	"github.com/gotd/td/internal/verif/shim/vsched"
 	"github.com/gotd/td/mtproto"
+	"github.com/gotd/td/pool"
 	"github.com/gotd/td/rpc"
 	"github.com/gotd/td/telegram"
 	"github.com/gotd/td/telegram/internal/manager"
@@ -273,6 +276,108 @@ func body(p params, o *sx.Obs) {
 	cancel()
 }
 
+// ---- connection-level scenario: the real mtproto.Conn.Invoke (bad_server_salt re-send) when the connection dies ----
+
+type cparams struct {
+	// what the server does with the re-sent request (the first transmission is always rejected with bad_server_salt)
+	Resend string `json:"resend"` // "silent" | "ack"
+}
+
+var c29key = kit.Pattern("stream:c29-conn-key", 256)
+
+func cbody(p cparams, o *sx.Obs) {
+	var k crypto.AuthKey
+	copy(k.Value[:], c29key)
+	copy(k.ID[:], refcrypto.AuthKeyID(c29key))
+	cli, srv := sx.NewPipe(nil, "c", "s")
+	conn, err := mtproto.VerifC29NewConn(mtproto.Options{
+		Clock: sx.Clock{}, Random: kit.NewStream(29), Cipher: crypto.NewClientCipher(kit.NewStream(30)), Key: k, Salt: 0x1111, RetryInterval: time.Hour,
+	}, cli)
+	if err != nil {
+		panic(err)
+	}
+	var g sx.Group
+	resent, acked, done := false, false, false
+	g.Go("invoke", func() {
+		err := conn.Invoke(vctx.Background(), &tg.HelpGetNearestDCRequest{}, &tg.NearestDC{})
+		retry := false
+		if err != nil {
+			retry = pool.VerifC29Retryable(err)
+		}
+		o.Log("invoke-ret err=%v retryable=%v acked=%v", err != nil, retry, acked)
+		if err != nil {
+			o.Log("invoke-error %v", err)
+		}
+		done = true
+	})
+	vsched.GoDaemon("server", func() {
+		n := 0
+		for {
+			vsched.Cond("srv-await", func() bool { return srv.Pending() > 0 })
+			pl, err := refsession.Open(c29key, 0, srv.TryRecv())
+			if err != nil {
+				o.Log("frame-undecryptable")
+				return
+			}
+			id, _ := (&bin.Buffer{Buf: pl.Data()}).PeekID()
+			if id != tg.HelpGetNearestDCRequestTypeID && id != tg.InvokeWithLayerRequestTypeID {
+				continue
+			}
+			n++
+			o.Log("tx #%d msg=%d salt=%x step=%d", n, pl.MsgID, pl.Salt, vsched.Step())
+			switch {
+			case n == 1:
+				_ = conn.VerifC29HandleMessage(0x6553f10000000005, refsession.BadServerSalt(pl.MsgID, pl.SeqNo, 48, 0x2222))
+			case n == 2:
+				resent = true
+				if p.Resend == "ack" {
+					_ = conn.VerifC29HandleMessage(0x6553f10000000009, refsession.MsgsAck(pl.MsgID))
+					acked = true
+					o.Log("ack-done step=%d", vsched.Step())
+				}
+			}
+		}
+	})
+	g.Go("kill", func() {
+		// the connection is lost once the re-sent request is on the wire (and, in the ack variant, acknowledged)
+		vsched.Cond("await-kill-point", func() bool { return done || (resent && (p.Resend != "ack" || acked)) })
+		if done {
+			return
+		}
+		o.Log("die step=%d", vsched.Step())
+		conn.VerifC29Die()
+	})
+	g.Wait()
+}
+
+func ccheck(p cparams, o *sx.Obs, x *vsched.Sched) kit.Result {
+	if x.StepLimit {
+		return kit.Result{Outcome: "step-limit", Trivial: true}
+	}
+	if len(x.TimerFires) > 0 {
+		return kit.Result{Outcome: "retry-timer-fired", Trivial: true}
+	}
+	if x.Deadlock || !o.Has("invoke-ret") {
+		return kit.Bad("conn-stuck", "Invoke never returned after the connection died: %v; %s", x.Blocked, o.String())
+	}
+	var bad, retry, acked bool
+	for _, e := range o.Events {
+		scan(e, "invoke-ret err=%t retryable=%t acked=%t", &bad, &retry, &acked)
+	}
+	if !o.Has("die") {
+		return kit.Result{Outcome: "finished-before-loss", Trivial: true}
+	}
+	switch {
+	case !bad:
+		return kit.Bad("conn-success-without-result", "Invoke reported success although no result was ever delivered: %s", o.String())
+	case p.Resend == "silent" && !retry:
+		return kit.Bad("conn-unacked-not-retryable", "the re-sent request was never acknowledged when the connection died, but Invoke's error is not one the pool/client re-send on a new connection: %s", o.String())
+	case p.Resend == "ack" && retry:
+		return kit.Bad("conn-acked-retryable", "the re-sent request was acknowledged before the connection died, but Invoke's error is classified as safe to re-send: %s", o.String())
+	}
+	return kit.OKo(fmt.Sprintf("conn-level resend=%s retryable=%v", p.Resend, retry))
+}
+
 func scan(s, format string, a ...any) bool {
 	n, err := fmt.Sscanf(s, format, a...)
 	return err == nil && n == len(a)
@@ -377,8 +482,13 @@ func main() {
 			}
 			return sx.Scenario[params]{Name: "reconnect", Params: p, MaxSteps: 20000, FreeBound: fb, Body: body, Check: check}
 		}
+		cscs := []cparams{{"silent"}, {"ack"}}
+		cmk := func(p cparams) sx.Scenario[cparams] {
+			return sx.Scenario[cparams]{Name: "conn-badsalt", Params: p, MaxSteps: 8000, FreeBound: 6, Body: cbody, Check: ccheck}
+		}
 		if c.Replaying() {
 			sx.Explore(c, mk(scs[0]), 0, 0, 1)
+			sx.Explore(c, cmk(cscs[0]), 0, 0, 1)
 			return
 		}
 		bound := 1
@@ -390,7 +500,8 @@ func main() {
 			"completed, at any time, never} x server {silent, ack only, answers} x client close {none, any time, after the loss} x 1-2 concurrent calls; every "+
 			"schedule with <= %d preemptions/early timers and a bounded number of non-default free choices. Oracle: nothing hangs (pending and late calls "+
 			"return after close); an unacknowledged request is transmitted exactly once on the replacement connection and succeeds; a request whose ack "+
-			"completed before the loss is never transmitted again and its caller gets an error; never more than one transmission per connection.", bound)
+			"completed before the loss is never transmitted again and its caller gets an error; never more than one transmission per connection. Connection level: the real mtproto.Conn.Invoke whose first transmission is rejected with "+
+			"bad_server_salt and whose re-send is {unacknowledged, acknowledged} when the connection dies: the returned error must be classified retryable (pool's classifier) iff unacknowledged.", bound)
 		type unit struct{ sc, shard, shards int }
 		var units []unit
 		for i := range scs {
@@ -398,10 +509,19 @@ func main() {
 				units = append(units, unit{i, k, 4})
 			}
 		}
+		var cunits []unit
+		for i := range cscs {
+			cunits = append(cunits, unit{-1 - i, 0, 1})
+		}
+		units = append(cunits, units...) // the small connection-level scenarios first
 		if c.Fork(len(units), 16) {
 			return
 		}
 		u := units[c.Shard]
+		if u.sc < 0 {
+			sx.Explore(c, cmk(cscs[-1-u.sc]), 2, 0, 1)
+			return
+		}
 		sx.Explore(c, mk(scs[u.sc]), bound, u.shard, u.shards)
 	})
 }
